@@ -519,6 +519,8 @@ func Base(spec string) ([]byte, error) {
 		if inner, err = Base(parts[1]); err == nil {
 			b, err = transformStream(parts[0], inner)
 		}
+	case strings.HasPrefix(spec, "deb:"):
+		b, err = DebSynthetic(spec[4:])
 	case strings.HasPrefix(spec, "appxpe:"):
 		var peb []byte
 		if peb, err = hex.DecodeString(spec[7:]); err == nil {
